@@ -83,6 +83,16 @@ Theorem C09_multi_array_partial : forall sh ents,
   | _, _ => False
   end.
 Proof. exact multi_array_bounded. Qed.
+(* B: the same with up to 4 entries (so up to 4 array entries, or 3 separated by basic
+   entries) on the 12 leading shapes of rank 1-2 with axis lengths 0-2 *)
+Theorem C09_multi_array4_partial : forall sh ents,
+  In sh family_shapes12 -> In ents (tuples 4 sh) ->
+  match ref_getitem sh ents, np_getitem sh ents with
+  | None, None => True
+  | Some (s1, f1), Some (s2, f2) => s1 = s2 /\ forall o, inb s1 o = true -> f1 o = f2 o
+  | _, _ => False
+  end.
+Proof. exact multi_array_bounded4. Qed.
 
 (* U: len(), iteration and ndenumerate visit q[0], q[1], ... in order, and q[k] is the k-th
    slice along the first axis (values, mask, derivatives) *)
@@ -172,6 +182,7 @@ Print Assumptions C09_basic.
 Print Assumptions C09_bad_integer_masks_all.
 Print Assumptions C09_masked_boolean_masks_all.
 Print Assumptions C09_multi_array_partial.
+Print Assumptions C09_multi_array4_partial.
 Print Assumptions C09_len_iter.
 Print Assumptions C09_iter_order.
 Print Assumptions C09_item_k.
